@@ -464,3 +464,50 @@ func Flush(wall float64, code int) {
 	}
 	_ = os.WriteFile(filepath.Join(OutDir, fmt.Sprintf("shard-%d.json", Shard)), b, 0o644)
 }
+
+// BlockedInGo9p returns the stacks of goroutines that are blocked (channel
+// operation, mutex, cond) with a frame inside github.com/rminnich/go9p, the
+// logger goroutine and goroutines parked in a transport Read excepted. An
+// empty result means nothing is stuck inside the library.
+func BlockedInGo9p() string {
+	buf := make([]byte, 1<<22)
+	n := runtime.Stack(buf, true)
+	var out []string
+	for _, blk := range strings.Split(string(buf[:n]), "\n\n") {
+		head, _, _ := strings.Cut(blk, "\n")
+		if !strings.HasPrefix(head, "goroutine ") {
+			continue
+		}
+		waiting := false
+		for _, w := range []string{"[chan send", "[chan receive", "[select", "[semacquire", "[sync.Mutex.Lock", "[sync.Cond.Wait", "[sync.RWMutex"} {
+			if strings.Contains(head, w) {
+				waiting = true
+			}
+		}
+		if !waiting || !strings.Contains(blk, "github.com/rminnich/go9p.") {
+			continue
+		}
+		if strings.Contains(blk, "(*Logger).doLog") {
+			continue
+		}
+		// the innermost non-runtime frame decides: parked in the harness's
+		// transport or gate is not "inside go9p"
+		lines := strings.Split(blk, "\n")
+		inner := ""
+		for _, l := range lines[1:] {
+			if strings.HasPrefix(l, "\t") || strings.HasPrefix(l, "runtime.") || strings.HasPrefix(l, "sync.") || strings.HasPrefix(l, "internal/") || strings.HasPrefix(l, "time.") {
+				continue
+			}
+			inner = l
+			break
+		}
+		if strings.HasPrefix(inner, "github.com/rminnich/go9p.") {
+			// the idle send loop (select on done/reqout) is normal
+			if strings.Contains(inner, "(*Conn).send") || strings.Contains(inner, "(*Clnt).send") {
+				continue
+			}
+			out = append(out, blk)
+		}
+	}
+	return strings.Join(out, "\n\n")
+}
